@@ -294,6 +294,91 @@ func rotationInPlace(t *testing.T, r *ev.Run) {
 	for _, past := range []time.Duration{2 * time.Minute, 30 * time.Second} {
 		rotationInPlaceAt(t, r, past)
 	}
+	staleAndExpired(t, r)
+}
+
+// staleAndExpired: a session is idle for longer than the revoke-check interval and its keys expire meanwhile. The
+// next encrypt finds its cache entries stale: it re-reads each key's record once, sees that the keys are expired and
+// rotates. "Re-reads the key's record once before using it": the intermediate key's and the system key's record are
+// each read exactly once by that encrypt and the KMS unwraps nothing (the old system key is not needed any more).
+func staleAndExpired(t *testing.T, r *ev.Run) {
+	for _, nc := range []namedCfg{{"simple", world.Default(0, 0, 0)}, {"lru100", func() world.Cfg {
+		c := world.Default(0, 0, 0)
+		c.IKPolicy, c.IKCap, c.SKPolicy, c.SKCap = "lru", 100, "slru", 100
+		return c
+	}()}, {"shared-lfu64", func() world.Cfg {
+		c := world.Default(0, 0, 0)
+		c.SharedIK, c.IKPolicy, c.IKCap = true, "lfu", 64
+		return c
+	}()}} {
+		for _, idle := range []time.Duration{11 * time.Minute, 3 * time.Hour} {
+			name := fmt.Sprintf("stale-and-expired/%s/idle=%s", nc.name, idle)
+			journal("c20 " + name)
+			func() {
+				defer func() {
+					if pv := recover(); pv != nil {
+						r.Violation("c20-panic", fmt.Sprintf("scenario %s: %v", name, pv), name)
+					}
+				}()
+				synctest.Test(t, func(t *testing.T) {
+					E, R := time.Hour, 10*time.Minute
+					cfg := nc.cfg
+					cfg.Expire, cfg.Revoke, cfg.Precision = E, R, time.Minute
+					w := world.New("memguard")
+					defer w.Close()
+					time.Sleep(31 * time.Second)
+					ctx := context.Background()
+					f := w.Factory(cfg, "svc", "prod")
+					s, _ := f.GetSession("part0")
+					if _, err := s.Encrypt(ctx, []byte("x")); err != nil {
+						r.Violation("c20-op-failed", fmt.Sprintf("%s: %v", name, err), name)
+						return
+					}
+					time.Sleep(E - idle + time.Minute) // used once more, idle minutes before the keys expire
+					if _, err := s.Encrypt(ctx, []byte("x")); err != nil {
+						r.Violation("c20-op-failed", fmt.Sprintf("%s: %v", name, err), name)
+						return
+					}
+					time.Sleep(idle + 90*time.Second) // stale (idle > R) and expired
+					msFrom, kmsFrom := w.MS.N(), w.KMS.N()
+					d, err := s.Encrypt(ctx, []byte("x"))
+					if err != nil {
+						r.Violation("c20-op-failed", fmt.Sprintf("%s: %v", name, err), name)
+						return
+					}
+					reads := map[string]int{}
+					for _, mc := range w.MS.CallsFrom(msFrom) {
+						if mc.Op == "load" || mc.Op == "loadlatest" {
+							reads[mc.ID]++
+						}
+					}
+					unwraps := 0
+					for _, kc := range w.KMS.Calls()[kmsFrom:] {
+						if kc.Op == "decrypt" {
+							unwraps++
+						}
+					}
+					r.Eval(1)
+					r.Count("stale_and_expired_cases", 1)
+					if reads["_IK_part0_svc_prod"] != 1 || reads["_SK_svc_prod"] != 1 || unwraps != 0 {
+						r.Violation("c20-stale-reload-count", fmt.Sprintf("%s: the first encrypt after an idle period longer than the interval, with the keys expired meanwhile, read the intermediate key's record %d time(s) and the system key's %d time(s) (want once each) and made the KMS unwrap %d key(s) (want 0): %v",
+							name, reads["_IK_part0_svc_prod"], reads["_SK_svc_prod"], unwraps, w.MS.CallsFrom(msFrom)), name)
+					}
+					if d.Key.ParentKeyMeta.Created <= time.Now().Add(-E).Unix() {
+						r.Violation("c20-op-failed", fmt.Sprintf("%s: the record names an expired key", name), name)
+					}
+					msFrom, kmsFrom = w.MS.N(), w.KMS.N()
+					if _, err := s.Encrypt(ctx, []byte("x")); err != nil || w.MS.N() != msFrom || w.KMS.N() != kmsFrom {
+						r.Violation("c20-external-call-within-interval", fmt.Sprintf("%s: the repeat right after the rotation performed %d metastore and %d KMS call(s) (err=%v)", name, w.MS.N()-msFrom, w.KMS.N()-kmsFrom, err), name)
+					}
+					s.Close()
+					f.Close()
+					synctest.Wait()
+					r.Distinct(name)
+				})
+			}()
+		}
+	}
 }
 
 func rotationInPlaceAt(t *testing.T, r *ev.Run, past time.Duration) {
@@ -616,8 +701,14 @@ func runC20(t *testing.T, r *ev.Run, name string, cfg world.Cfg, nparts int, see
 	}()
 	synctest.Test(t, func(t *testing.T) {
 		rng := rand.New(rand.NewSource(seed))
-		R := []time.Duration{time.Minute, 10 * time.Minute, time.Hour}[rng.Intn(3)]
+		// (a zero interval - the sidecar's setting when --check-interval is not given - means "re-check on every use":
+		// a repeat at a later instant re-reads the record exactly once)
+		_ = rng.Intn(3)
+		R := []time.Duration{time.Minute, 10 * time.Minute, time.Hour, 0}[int(uint64(seed)%4)]
 		cfg.Revoke = R
+		if R == 0 {
+			r.Count("scenarios_with_zero_interval", 1)
+		}
 		c := &c20{r: r, name: name, cfg: cfg, R: R, lastRead: map[string]time.Time{}, done: map[string]bool{}, kmsSeen: map[[32]byte]time.Time{}}
 		c.w = world.New([]string{"memguard", "protectedmemory"}[rng.Intn(2)])
 		c.w.MS.WhoFn = func() string { return c.scope }
